@@ -1284,7 +1284,8 @@ impl<'a> Query<'a> {
         let mut constraint_attributes = Vec::new();
         match querystring.split(QUERYSPLITCHARS).next() {
             Some("WHERE") => querystring = querystring["WHERE".len()..].trim_start(),
-            Some("{") | Some("") | None => {} //no-op (select all, end of query, no where clause)
+            Some("") | None => {} //no-op (select all, end of query, no where clause)
+            Some(x) if x.starts_with(&['{', '}', '|']) => {} //no-op (no where clause; subqueries follow or this subquery ends)
             _ => {
                 return Err(StamError::QuerySyntaxError(
                     format!(
